@@ -1295,3 +1295,63 @@ Proof.
   intro Hc. destruct w as [f1 f2 f3 f4 f5 f6 f7 f8 f9 f10 f11 f12 f13 f14 f15 f16 f17 f18 f19 f20]. cbn in Hc. subst.
   unfold after_command, peer_react. cbn. repeat split; reflexivity.
 Qed.
+
+(* ================================================================== C06: where the data connection goes *)
+Lemma after_command_plan w line x r rest : w_cur w = r :: rest -> w_plan (after_command w line x) = r_data r.
+Proof.
+  intro Hc. destruct w as [f1 f2 f3 f4 f5 f6 f7 f8 f9 f10 f11 f12 f13 f14 f15 f16 f17 f18 f19 f20]. cbn in Hc. subst.
+  unfold after_command, peer_react. reflexivity.
+Qed.
+
+Lemma run_dnew_dconnect ip port k w : dp_reachable (w_plan w) = true ->
+  exists w2, run (DNew (DConnect ip port k)) w = run k w2 /\
+             w_trace w2 = w_trace w ++ [EData DNewObj; EData (DConnectTo ip port true)] /\
+             w_data w2 = Some (mkD true false false).
+Proof.
+  intro H. cbn [run]. change (w_plan (emit (set_data w (Some (mkD false false false))) [EData DNewObj])) with (w_plan w).
+  rewrite H. eexists. split; [reflexivity|]. cbn [w_trace w_data emit set_trace set_data]. rewrite <- app_assoc. auto.
+Qed.
+
+Lemma run_dnew_dconnect_fail ip port k w : dp_reachable (w_plan w) = false ->
+  exists w2, run (DNew (DConnect ip port k)) w = (OThrow, w2) /\
+             w_trace w2 = w_trace w ++ [EData DNewObj; EData (DConnectTo ip port false)].
+Proof.
+  intro H. cbn [run]. change (w_plan (emit (set_data w (Some (mkD false false false))) [EData DNewObj])) with (w_plan w).
+  rewrite H. eexists. split; [reflexivity|]. cbn [w_trace emit set_trace set_data]. rewrite <- app_assoc. auto.
+Qed.
+
+(* passive, RFC 2428: after a non-negative reply to EPSV the client connects to the control connection's peer
+   (ip = None) at exactly the port the 229 parser returns; a reply the parser rejects is an error and no socket is
+   opened *)
+Theorem epsv_connects_to_parsed verb arg acc k_ok k_none w r rest x :
+  ready w -> w_pending w = [] -> w_cur w = r :: rest -> simple_reaction r x -> is_negative x = false ->
+  c_mode (w_cfg w) = Passive -> c_rfc2428 (w_cfg w) = true ->
+  match try_parse_epsv_reply (text x) with
+  | Some port =>
+      dp_reachable (r_data r) = true ->
+      exists w2 K, run (create_data_connection verb arg acc k_ok k_none) w = run K w2 /\
+        data_events (skipn (length (w_trace w)) (w_trace w2)) = [DNewObj; DConnectTo None port true]
+  | None =>
+      exists w2, run (create_data_connection verb arg acc k_ok k_none) w = (OThrow, w2) /\
+        data_events (skipn (length (w_trace w)) (w_trace w2)) = []
+  end.
+Proof.
+  intros Hr Hp Hc Hs Hn Hm Hrfc. unfold create_data_connection. rewrite run_getcfg, Hm, Hrfc.
+  rewrite (pc_step EPSV_ None _ w r rest x Hr Hc Hs I). rewrite Hn.
+  assert (T : exists es, w_trace (after_command w (EPSV_ ++ []) x) = w_trace w ++ es /\ data_events es = []).
+  { destruct (after_command_facts w (EPSV_ ++ []) x r rest Hr Hc Hs Hp) as (_ & _ & _ & _ & _ & _ & _ & _ & _ & T).
+    eexists. split; [exact T|]. rewrite !data_events_app, !data_events_block. reflexivity. }
+  pose proof (after_command_plan w (EPSV_ ++ []) x r rest Hc) as Pl.
+  destruct T as (es & T & De).
+  generalize dependent (after_command w (EPSV_ ++ []) x). intros w1 T Pl.
+  destruct (try_parse_epsv_reply (text x)) as [port|].
+  - intro Hreach. rewrite <- Pl in Hreach.
+    destruct (run_dnew_dconnect None port
+      (process_command verb arg (fun r2 =>
+         if is_negative r2 then DDisconnect true (k_none ((acc ++ [x]) ++ [r2]))
+         else if c_tls (w_cfg w) then DHandshakeP (k_ok ((acc ++ [x]) ++ [r2])) else k_ok ((acc ++ [x]) ++ [r2]))) w1 Hreach)
+      as (w2 & E & T2 & _).
+    exists w2. eexists. split; [exact E|].
+    rewrite T2, T, <- app_assoc, skipn_app, skipn_all, Nat.sub_diag. cbn [skipn]. rewrite app_nil_l, data_events_app, De. reflexivity.
+  - exists w1. split; [reflexivity|]. rewrite T, skipn_app, skipn_all, Nat.sub_diag. cbn [skipn]. rewrite app_nil_l. exact De.
+Qed.
